@@ -247,4 +247,17 @@ PROPS = {
                                      'encoding/json as the standard JSON parser'],
         'assumptions': ['the column convention start+1 is the one the pinned suite expects', 'a parse error at the very end of the input points at the last line, column 1'],
     },
+    'C02': {
+        'level': 'proof',
+        'correspondence': 'Exec.exec_op (reflection nodes read as Resolver nodes) == Root.ResolveString under seven strategy assignments of one case: all Resolver objects, all plain values behind an AnyResolver, all Go methods found by reflection with RegisterType, the same with bindings discovered on first use, Resolver/AnyResolver mixture, Resolver/reflection mixtures (registered, discovered); data and error paths',
+        'rule': ('cases in the feature set the strategies share: schemas of 2-4 object types without abstract types, scalar/enum/object/list fields, String and Boolean arguments that are always supplied in declaration order, variables always given, aliases, inline and named fragments on object types, @skip/@include, failing resolvers (single and multiple errors), null objects; data graphs with cycles. '
+                 'Each case is run under the seven assignments (a strategy per object type); the reflection strategy is a zoo of Go types whose methods F1..F8 are found by the case-insensitive lookup and receive their arguments positionally; the root of an all-reflection run is a struct with Query/Mutation fields. '
+                 'All seven responses must be equal (data and the multiset of error paths) and equal to the model; a Resolver object handed to the AnyResolver fails the run (precedence). Cases whose data does not fit its declared type (the model reports a not-a-list / coercion error) are outside the shared feature set and only compared with the model. non-trivial = every case; distinct by input text.'),
+        'explanation': ('Theorems C02_every_assignment_refines_the_specification (for every assignment of Resolver/AnyResolver strategies the executor model refines the one stateless specification: hence any two assignments agree on data and error paths), C02_specification_is_strategy_blind, C02_precedence (Coq). '
+                        'PARTIAL: reflection (resolveReflect, regField, formReflectArgs, assureType) is not in the model; its agreement with the other strategies is carried by the seven-way comparison on the real code. Strategies are assigned per object type, not per node. '
+                        'Defect repaired: an error list returned by a reflected method was reported as one error (cc8ca25).'),
+        'trusted_base': COMMON_TB + ['modelled rather than verified: resolve.go resolveField strategy switch and list dispatch for Resolver/AnyResolver; reflection observed only',
+                                     'the Go-type zoo of the harness (R/A/F types per object type id), its AnyResolver and the decoy that detects a Resolver object reaching the AnyResolver'],
+        'assumptions': ['arguments are String/Boolean, all supplied, non-null (reflection passes supplied arguments positionally and uncoerced: outside this set the strategies differ by design, DESIGN.md F03/F08)', 'no abstract (interface/union) field types under reflection'],
+    },
 }
